@@ -43,7 +43,7 @@ import (
 	"layeh.com/radius"
 )
 
-const vfExchangeTimeout = 500 * time.Millisecond
+const vfExchangeTimeout = 1500 * time.Millisecond
 
 func vfHex(b []byte) string {
 	if len(b) == 0 {
@@ -390,11 +390,7 @@ func vfStatDelta(a, b vfStatSnap, hosts []string) string {
 
 // build the datagram of a CoA packet recipe; returns (datagram, now)
 func vfBuildCoA(kv map[string]string) ([]byte, int64) {
-	// wait for the early part of a wall-clock second so that "now" is the same in the code under test
-	for time.Now().Nanosecond() > 800_000_000 {
-		time.Sleep(20 * time.Millisecond)
-	}
-	now := time.Now().Unix()
+	now := time.Now().Unix() // the caller repeats the packet if the wall-clock second changes before it is done
 	if raw, ok := kv["raw"]; ok {
 		return vfUnhex(raw), now
 	}
@@ -538,6 +534,24 @@ func vfRunCoA(f []string) string {
 	}()
 	dst := conn.LocalAddr().(*net.UDPAddr)
 
+	if len(clients) == 0 {
+		return "BADCASE no clients"
+	}
+	sip := clients[0].network.IP.To4()
+	if sip == nil || sip.IsUnspecified() {
+		sip = net.IPv4(127, 0, 0, 1).To4()
+	}
+	ssock, err := net.ListenUDP("udp4", &net.UDPAddr{IP: sip})
+	if err != nil {
+		return "ENV bind sentinel " + err.Error()
+	}
+	defer ssock.Close()
+	sentinelKey := clients[0].key
+	sreq := []byte{40, 1, 0, 31}
+	sattr := append([]byte{44, 11}, []byte("~sentinel")...)
+	sreq = append(sreq, vfMD5(sreq, vfZero16, sattr, clients[0].secret)...)
+	sreq = append(sreq, sattr...)
+
 	n, _ := strconv.Atoi(f[5])
 	p := 6
 	out := []string{}
@@ -556,43 +570,58 @@ func vfRunCoA(f []string) string {
 		if err != nil {
 			return "ENV bind " + err.Error()
 		}
-		dg, now := vfBuildCoA(kv)
-		before := vfSnap(c.stats)
-		sock.WriteToUDP(dg, dst)
-		outcome, reply := "silent", []byte(nil)
-		deadline := time.Now().Add(150 * time.Millisecond)
-		for time.Now().Before(deadline) {
-			sock.SetReadDeadline(time.Now().Add(2 * time.Millisecond))
-			m, _, err := sock.ReadFromUDP(buf)
-			if err == nil {
+		var dg, reply []byte
+		var now int64
+		var before, after vfStatSnap
+		var outcome string
+		var evs []string
+		for attempt := 0; ; attempt++ {
+			dg, now = vfBuildCoA(kv)
+			before = vfSnap(c.stats)
+			sock.WriteToUDP(dg, dst)
+			// Completion is detected without timing: a correctly signed Disconnect-Request for the session
+			// "~sentinel" from the first configured client follows the test datagram through the single
+			// read loop and the single worker; its ACK and its terminate event mark the point where the
+			// listener is done with the test datagram.
+			ssock.WriteToUDP(sreq, dst)
+			ssock.SetReadDeadline(time.Now().Add(20 * time.Second))
+			if _, _, err := ssock.ReadFromUDP(buf); err != nil {
+				return strings.Join(out, " ; ") + " HANG-sentinel"
+			}
+			evs = evs[:0]
+			for done := false; !done; {
+				select {
+				case e := <-bus.evs:
+					if strings.Contains(e, hex.EncodeToString([]byte("~sentinel"))) {
+						done = true
+					} else {
+						evs = append(evs, e)
+					}
+				case <-time.After(20 * time.Second):
+					return strings.Join(out, " ; ") + " HANG-bus"
+				}
+			}
+			after = vfSnap(c.stats)
+			// remove the sentinel's own counts
+			{
+				x := after.per[sentinelKey]
+				x.DisconnectRequests--
+				x.DisconnectACKs--
+				after.per[sentinelKey] = x
+			}
+			outcome, reply = "silent", nil
+			sock.SetReadDeadline(time.Now().Add(time.Millisecond))
+			if m, _, err := sock.ReadFromUDP(buf); err == nil {
 				reply = append([]byte(nil), buf[:m]...)
 				outcome = "reply"
-				break
-			}
-			if vfSnap(c.stats).drops() != before.drops() {
+			} else if after.drops() != before.drops() {
 				outcome = "drop"
-				break
 			}
-		}
-		evs := []string{}
-		if outcome == "reply" && len(reply) > 0 && reply[0] == 41 {
-			select {
-			case e := <-bus.evs:
-				evs = append(evs, e)
-			case <-time.After(500 * time.Millisecond):
-			}
-		}
-		// anything else already published
-		for more := true; more; {
-			select {
-			case e := <-bus.evs:
-				evs = append(evs, e)
-			default:
-				more = false
+			if time.Now().Unix() == now || attempt >= 5 {
+				break // the whole exchange happened within one wall-clock second: "now" is what the code saw
 			}
 		}
 		sock.Close()
-		after := vfSnap(c.stats)
 		line := fmt.Sprintf("now=%d dg=%s %s st=%s", now, vfHex(dg), outcome, vfStatDelta(before, after, hosts))
 		if outcome == "reply" {
 			ra, ma := "-", "-"
